@@ -219,16 +219,38 @@ def connector_args(s):
             out["api"] = ("err", exc_class(e))
     # vnclog -s S out.vdo
     rec = []
-    with mock.patch.object(command, "reactor", _Rx()), mock.patch.object(command, "setup_logging", lambda o: None), \
-            mock.patch.object(command, "build_proxy", lambda o: rec.append((o.host, o.port, o.address_family)) or mock.Mock()), \
+
+    class _RxLog(_Rx):
+        """vnclog: the real build_proxy runs; the factory it hands to listenTCP knows where the outgoing connection goes"""
+
+        def listenTCP(self, port, factory, *a, **k):
+            fam = getattr(factory, "_verif_family", None)
+            rec.append((factory.host, factory.port, fam))
+            return mock.Mock(getHost=lambda: mock.Mock(port=5999))
+    real_bp = command.build_proxy
+
+    def bp(options):
+        f = real_bp(options)
+        return f
+    orig_parse = command.parse_server
+    fam_seen = []
+
+    def parse_and_note(sv):
+        out_ = orig_parse(sv)
+        fam_seen.append(out_[0])
+        return out_
+    with mock.patch.object(command, "reactor", _RxLog()), mock.patch.object(command, "setup_logging", lambda o: None), \
+            mock.patch.object(command, "parse_server", parse_and_note), \
             mock.patch.object(sys, "argv", ["vnclog", "-s", s, "out.vdo"]), mock.patch.object(sys, "stderr", open(os.devnull, "w")):
         try:
             command.vnclog()
-            out["vnclog"] = ("ok", FAM.get(rec[0][2], str(rec[0][2])), rec[0][0], rec[0][1]) if len(rec) == 1 else ("err", "proxies=%d" % len(rec))
+            fam_ = fam_seen[-1] if fam_seen else None
+            out["vnclog"] = ("ok", FAM.get(fam_, str(fam_)), rec[0][0], rec[0][1]) if len(rec) == 1 else ("err", "proxies=%d" % len(rec))
         except ValueError:
             out["vnclog"] = ("err", "value") if not rec else ("err", "raised-after-build")
         except SystemExit:
-            out["vnclog"] = ("err", "exit") if not rec else (("ok", FAM.get(rec[0][2], str(rec[0][2])), rec[0][0], rec[0][1]) if len(rec) == 1 else ("err", "proxies=%d" % len(rec)))
+            fam_ = fam_seen[-1] if fam_seen else None
+            out["vnclog"] = ("err", "exit") if not rec else (("ok", FAM.get(fam_, str(fam_)), rec[0][0], rec[0][1]) if len(rec) == 1 else ("err", "proxies=%d" % len(rec)))
         except Exception as e:  # noqa
             out["vnclog"] = ("err", exc_class(e))
     out["endpoints"] = list(eps)
